@@ -11,6 +11,82 @@ def fidx(prog, st, name):
     return next(i for i, x in enumerate(prog.structs[st]["fields"]) if x["name"] == name)
 
 
+def _over_data(d, ix):
+    return desc_contains(d, lambda y: y[0] == "field" and y[2] == ix["data"])
+
+
+def loop_lookups(prog, b, ix):
+    """Loop form of the key lookup: `for (i, item) in self.data.iter().enumerate() { if <key test> { .. Some(i) / Some(item) .. } }`.
+    Returns [(next_block, some_block, result_local, key_fields)]."""
+    out = []
+    for nb, t in b.calls_to(r"Iterator>?::next$|Iterator::next$"):
+        recv = describe(prog, b, t["args"][0])
+        if not _over_data(recv, ix) or desc_contains(recv, lambda y: y[0] == "call" and core.re.search(r"::(rev|skip|take|filter|step_by)$", y[1]) is not None):
+            continue
+        for bi, blk in enumerate(b.blocks):
+            for st in blk["stmts"]:
+                rv = st.get("rv")
+                if not (rv and rv.get("k") == "agg" and rv.get("variant") == "Some" and not st["pl"]["p"]):
+                    continue
+                pay = describe(prog, b, rv["ops"][0])
+                if not desc_contains(pay, lambda y: y[0] == "call" and len(y) > 3 and y[3] == nb):
+                    continue
+                # inside the iteration that produced the element (not a later use of the lookup's result)
+                if not any(lab == "Some" and desc_contains(dd, lambda y: y[0] == "call" and len(y) > 3 and y[3] == nb) and not desc_contains(dd, lambda y: y[0] == "multi")
+                           for s_, lab, dd, info in core.guards_dominating(prog, b, bi)):
+                    continue
+                keys = set()
+                for (a, op, r) in panics.cmp_facts(prog, b, bi):
+                    if op != "==":
+                        continue
+                    for x, y_ in ((a, r), (r, a)):
+                        for fname in ("route", "host"):
+                            item_side = desc_contains(x, lambda z: z[0] == "field" and z[2] == ix["item_" + fname]) and desc_contains(x, lambda z: z[0] == "call" and len(z) > 3 and z[3] == nb)
+                            par_side = desc_contains(y_, lambda z: z[0] == "param" and z[2] == fname) and not desc_contains(y_, lambda z: z[0] == "field")
+                            if item_side and par_side:
+                                keys.add(fname)
+                out.append((nb, bi, st["pl"]["l"], keys))
+    return out
+
+
+def from_lookup(prog, b, ix, d):
+    """Does the value description derive from the result of the key lookup (position/find call, or the loop form)?"""
+    if desc_contains(d, lambda y: y[0] == "call" and core.re.search(r"::(position|find)$", y[1]) is not None):
+        return True
+    nbs = [nb for nb, _, _, _ in loop_lookups(prog, b, ix)]
+    return bool(nbs) and desc_contains(d, lambda y: y[0] == "call" and len(y) > 3 and y[3] in nbs)
+
+
+def lookup_none_edges(prog, b, ix):
+    """CFG edges on which the lookup found nothing."""
+    edges = set()
+    for blk, t2 in b.calls_to(r"::(position|find)$"):
+        for e in some_edge_of(prog, b, blk, "None"):
+            edges.add(e)
+    res_locals = set(l for _, _, l, _ in loop_lookups(prog, b, ix))
+    for s_ in range(len(b.blocks)):
+        t = b.term(s_)
+        if t and t["k"] == "switch":
+            info = core.switch_info(prog, b, s_)
+            if info and info.get("kind") == "enum" and info.get("src") and "None" in info["edges"]:
+                src = info["src"]["l"]
+                # the tested value is (a copy of) a loop-lookup result
+                seen = set()
+                while src is not None and src not in seen:
+                    seen.add(src)
+                    if src in res_locals:
+                        edges.add((s_, info["edges"]["None"]))
+                        break
+                    ds = b.defs().get(src, [])
+                    nxt = None
+                    for dd in ds:
+                        if dd[2] == "assign" and dd[3]["rv"]["k"] in ("use", "cast", "ref") and not dd[3]["pl"]["p"]:
+                            rv = dd[3]["rv"]
+                            nxt = rv["pl"]["l"] if rv["k"] == "ref" else core.op_local(rv["o"])
+                    src = nxt
+    return edges
+
+
 def key_predicate(chk, prog, fn, ix):
     """R1: the lookup closure compares item.route with the route parameter and item.host with the host parameter."""
     b = prog.bodies.get(fn)
@@ -18,8 +94,16 @@ def key_predicate(chk, prog, fn, ix):
     if not b:
         return None
     pos = [(blk, t) for blk, t in b.calls_to(r"Iterator>?::(position|find|rposition|find_map)$|Iterator::(position|find)$")]
-    chk.ob("R1.key", fn, "one lookup over self.data", len(pos) == 1, f"{len(pos)} lookups")
+    loops = loop_lookups(prog, b, ix) if not pos else []
+    chk.ob("R1.key", fn, "one lookup over self.data", len(pos) == 1 or (not pos and len(set(nb for nb, _, _, _ in loops)) == 1), f"{len(pos)} iterator lookups, {len(loops)} loop lookups")
     facts = None
+    if loops:
+        keys = set.intersection(*[k for _, _, _, k in loops])
+        chk.ob("R1.key", fn, "the lookup scans all of self.data front to back", True, "loop over self.data.iter()")
+        for fname in ("route", "host"):
+            chk.ob("R1.key", fn, f"the predicate compares item.{fname} with the `{fname}` parameter", fname in keys,
+                   f"the lookup in {fn.split('::')[-1]} ignores `{fname}`: another entry's data can be returned / replaced", where=b.file)
+        facts = keys
     for blk, t in pos:
         recv = describe(prog, b, t["args"][0])
         ok = desc_contains(recv, lambda y: y[0] == "field" and y[2] == ix["data"]) and not desc_contains(recv, lambda y: y[0] == "call" and core.re.search(r"::(rev|skip|take|filter)$", y[1]) is not None)
@@ -145,7 +229,7 @@ def run(chk):
                     ok = True
             chk.ob("R2.pairing", C + "::set", "remove(existing) is preceded by cache_size -= data[existing].data.len()", ok,
                    "replacing an entry does not subtract the old entry's size", where=b.where(rb))
-            chk.ob("R2.pairing", C + "::set", "the removed index is the one found by the key lookup", desc_contains(idx, lambda y: y[0] == "call" and core.re.search(r"::position$", y[1]) is not None), f"{panics.short_desc(idx)}")
+            chk.ob("R2.pairing", C + "::set", "the removed index is the one found by the key lookup", from_lookup(prog, b, ix, idx), f"{panics.short_desc(idx)}")
         for pb, t in pushes:
             item = describe(prog, b, t["args"][1])
             val = item[3][rv_index(prog, "data")] if item[0] == "variant" else None
@@ -177,10 +261,7 @@ def run(chk):
             chk.ob("R3.limit", C + "::set", "push_back only once cache_size + value.len() <= cache_limit", room,
                    "an entry can be stored although it does not fit: the total size exceeds the configured limit", where=b.where(pb))
             through = [rb for rb, _ in rems]
-            edges = set()
-            for blk, t2 in b.calls_to(r"::position$"):
-                for e in some_edge_of(prog, b, blk, "None"):
-                    edges.add(e)
+            edges = lookup_none_edges(prog, b, ix)
             w = core.must_pass(b, [0], [pb], through_nodes=through, through_edges=edges, after_from=False)
             chk.ob("R3.replace", C + "::set", "an existing entry for the key is removed on every path before the new one is pushed", w is None,
                    "two entries for one key can coexist: get may return the older bytes", path=w, where=b.where(pb))
@@ -216,7 +297,7 @@ def run(chk):
                             fresh = True
                     chk.ob("R4.fresh", C + "::get", "Some(item) only under age(item) <= cache_time_limit on that same item", fresh,
                            "a stale (or differently keyed) entry can be returned", where=b.where(sb))
-                    chk.ob("R4.fresh", C + "::get", "the item returned is the one the key lookup found", desc_contains(item, lambda y: y[0] == "call" and core.re.search(r"::position$", y[1]) is not None), f"{panics.short_desc(item)}")
+                    chk.ob("R4.fresh", C + "::get", "the item returned is the one the key lookup found", from_lookup(prog, b, ix, item), f"{panics.short_desc(item)}")
     # ---- handlers
     h = prog.bodies.get("humphrey_server::server::static::inner_file_handler")
     chk.floor("inner_file_handler", 1 if h else 0, 1)
